@@ -46,6 +46,21 @@ fn elog(id: u16) {
     }
 }
 pub use crate::alloc::Bag;
+static CLONES: std::sync::atomic::AtomicUsize = std::sync::atomic::AtomicUsize::new(0);
+/// A value whose `Clone` is observable (C19: nothing the macro handles is ever cloned).
+pub struct CountClone(pub u32);
+impl Clone for CountClone {
+    fn clone(&self) -> Self {
+        CLONES.fetch_add(1, std::sync::atomic::Ordering::SeqCst);
+        CountClone(self.0)
+    }
+}
+pub fn reset_clones() {
+    CLONES.store(0, std::sync::atomic::Ordering::SeqCst);
+}
+pub fn clones() -> usize {
+    CLONES.load(std::sync::atomic::Ordering::SeqCst)
+}
 /// Allocation-free iterator source (shape from the plan).
 pub struct ArrIter {
     data: [u32; 8],
@@ -362,7 +377,7 @@ pub fn main(twins: &'static [Twin]) {
                 nontrivial.insert(fnv(format!("{}|{}", t.id, pstr).as_bytes()));
             }
             for tag in t.tags.split(',') {
-                if tag.starts_with("op:") || tag.starts_with("w:") || tag.starts_with("sp:") || tag.starts_with("big:") || tag.starts_with("nest:") || tag.starts_with("pair:") {
+                if tag.starts_with("op:") || tag.starts_with("w:") || tag.starts_with("sp:") || tag.starts_with("big:") || tag.starts_with("wide:") || tag.starts_with("bounds:") || tag.starts_with("nest:") || tag.starts_with("pair:") {
                     *cover.entry(tag.to_string()).or_insert(0) += 1;
                 }
             }
